@@ -290,6 +290,26 @@ def rule_bounds(ck):
                    sink="rampdown:clip")
 
 
+def bisection_roles(repo):
+    """(FuncInfo, Flow, lo, hi, index-argument-position or None) of the nested bisection: roles are taken from its own structure -
+    the stop test `hi - lo <= eps` - not from parameter positions, so unused parameters may come and go."""
+    bi = repo.fn("SortedSchedulingAlgo.max_feasible_rate.bisection")
+    bl = flow_of(bi)
+    lo = hi = None
+    for n in bl.cfg.nodes:
+        if n.kind == "test":
+            c = cmp_norm(n.expr)
+            if c and c[1] in ("<=", "<"):
+                d = linear(c[0], norm=canon) - linear(c[2], norm=canon)
+                ps = {k: v for k, v in d.t.items() if k in bi.params}
+                if len(ps) == 2 and sorted(ps.values()) == [-1, 1] and "eps" in d.t:
+                    hi = [k for k, v in ps.items() if v == 1][0]
+                    lo = [k for k, v in ps.items() if v == -1][0]
+    if lo is None:
+        raise AnalysisError("bisection: stop test `upper - lower <= eps` not found (cannot tell the two ends apart)")
+    return bi, bl, lo, hi
+
+
 def rule_tentative(ck):
     repo = ck.repo
     sa = repo.fn("SortedSchedulingAlgo.sorting_algorithm")
@@ -350,29 +370,32 @@ def rule_tentative(ck):
             ck.require(ok, "C07.R3", mf, r.stmt, ok="ub returned only after a schedule containing ub was found feasible", bad="`return ub` is not on the feasible edge of a check of a copy of the schedule with ub written at the station",
                        sink="mfr:ub")
         elif isinstance(r.expr, ast.Call) and call_name(r.expr) == "bisection":
-            a = [canon(x) for x in r.expr.args]
-            ck.require(a == ["station_index", "lb", "ub", "schedule"], "C07.R3", mf, r.expr, ok="bisect [lb, ub] at the station", bad=f"bisection called with {a}", sink="mfr:bisect-args")
+            bi0, _bl0, lo0, hi0 = bisection_roles(repo)
+            b0 = bind_args(r.expr, bi0, method=False)
+            a = {k: canon(v) for k, v in b0.items()}
+            ok = a.get(lo0) == "lb" and a.get(hi0) == "ub" and all(v in ("station_index", "schedule", "lb", "ub") for v in a.values())
+            ck.require(ok, "C07.R3", mf, r.expr, ok="bisect [lb, ub] at the station", bad=f"bisection called with {a}", sink="mfr:bisect-args")
         else:
             ck.violation("C07.R3", mf, r.stmt, f"max_feasible_rate returns `{s}`: only ub (proved feasible) or the bisection's lower end may be returned", sink="mfr:return")
     pre = [n for n in ml.cfg.nodes if n.kind == "raise"]
     ck.require(any(any(is_feasible_call(a) and not t for a, t in facts_at(ml, r)) for r in pre), "C07.R3", mf, "initial feasibility check", ok="refuses to search from an infeasible schedule",
                bad="max_feasible_rate no longer rejects an infeasible starting schedule", sink="mfr:initial")
-    bi = repo.fn("SortedSchedulingAlgo.max_feasible_rate.bisection")
-    bl = flow_of(bi)
-    idx, lo, hi, _s = bi.params[:4]
+    bi, bl, lo, hi = bisection_roles(repo)
+    idx_ok = ("station_index",) + tuple(p for p in bi.params if p not in (lo, hi))
+    mids = {f"({hi} + {lo}) / 2", f"({lo} + {hi}) / 2"}
     for r in [n for n in bl.cfg.nodes if n.kind == "return"]:
         e = r.expr
         if isinstance(e, ast.Call) and call_name(e) == "bisection":
-            a = [canon(bl.expand(x, r)) for x in e.args[:3]]
-            feas = [t for x, t in facts_at(bl, r) if is_feasible_call(x)]
-            mid = f"({hi} + {lo}) / 2"
-            mids = {mid, f"({lo} + {hi}) / 2"}
+            bb = bind_args(e, bi, method=False)
+            al, ah = canon(bl.expand(bb[lo], r)) if lo in bb else None, canon(bl.expand(bb[hi], r)) if hi in bb else None
+            a = [None, al, ah]
+            feas = [lab for tn, lab in bl.cfg.edges_dominating(r) if tn.kind == "test" and is_feasible_call(tn.expr)]
             if feas and feas[-1]:
-                ok = a[0] == idx and a[1] in mids and a[2] == hi
+                ok = al in mids and ah == hi
                 ck.require(ok, "C07.R3", bi, e, ok="feasible: the lower end moves up to mid", bad=f"on the feasible edge the bisection continues with ({a[1]}, {a[2]}): the lower end must move to mid and the upper stay",
                            sink="bisect:feasible-edge")
             elif feas:
-                ok = a[0] == idx and a[1] == lo and a[2] in mids
+                ok = al == lo and ah in mids
                 ck.require(ok, "C07.R3", bi, e, ok="infeasible: the upper end moves down to mid", bad=f"on the infeasible edge the bisection continues with ({a[1]}, {a[2]}): the upper end must move to mid",
                            sink="bisect:infeasible-edge")
             else:
@@ -383,7 +406,7 @@ def rule_tentative(ck):
     for c in chk:
         nm = dotted(c.args[0]) if c.args else None
         sts = [n for n in bl.cfg.nodes if n.kind == "stmt" and isinstance(n.stmt, ast.Assign) and isinstance(n.stmt.targets[0], ast.Subscript) and dotted(n.stmt.targets[0].value) == nm]
-        ok = bool(sts) and all(canon(n.stmt.targets[0].slice) == idx and canon(bl.expand(n.stmt.value, n)) in (f"({hi} + {lo}) / 2", f"({lo} + {hi}) / 2") for n in sts)
+        ok = bool(sts) and all(canon(n.stmt.targets[0].slice) in idx_ok and canon(bl.expand(n.stmt.value, n)) in mids for n in sts)
         ck.require(ok, "C07.R3", bi, c, ok="the checked schedule holds mid at the station", bad="the schedule checked by the bisection does not hold the midpoint at the station index", sink="bisect:checked-schedule")
     # discrete search
     df = repo.fn("SortedSchedulingAlgo.discrete_max_feasible_rate")
